@@ -220,6 +220,61 @@ def long_names_scenario():
     return {"engine": "e1", "variant": {"preconf": False}, "actions": acts}
 
 
+def utf8_mask_scenario():
+    """'?' is one character and '*' any run of characters, whatever their length in bytes: ban / exception / invite
+    exception masks aimed at a nickname with a two-byte character, then speaking and joining"""
+    acts = [["connect", {"nick": "al", "user": "al"}], ["connect", {"nick": "zoé", "user": "zoe"}],
+            ["connect", {"nick": "bo", "user": "bob"}]]
+    acts.append(["act", 1, {"verb": "JOIN", "chans": ["#u"]}])
+    acts.append(["act", 2, {"verb": "JOIN", "chans": ["#u"]}])
+    for mask, _ in (("zo?!*@*", True), ("zo??!*@*", False), ("???!*@*", True), ("????!*@*", False), ("z*é!*@*", True),
+                    ("zo\u00e9!*@*", True), ("z?!*@*", False)):
+        acts.append(["act", 1, {"verb": "MODE", "target": "#u", "modes": [["+b", [mask]]]}])
+        acts.append(["act", 2, {"verb": "PRIVMSG", "targets": ["#u"], "text": "may I speak under " + mask}])
+        acts.append(["act", 2, {"verb": "NOTICE", "targets": ["#u"], "text": "and be noticed"}])
+        acts.append(["act", 1, {"verb": "MODE", "target": "#u", "modes": [["-b", [mask]]]}])
+    acts.append(["act", 1, {"verb": "MODE", "target": "#u", "modes": [["+b", ["*!*@*"]]]}])
+    for mask in ("zo?!*@*", "zo??!*@*", "??!*@*"):
+        acts.append(["act", 1, {"verb": "MODE", "target": "#u", "modes": [["+e", [mask]]]}])
+        acts.append(["act", 2, {"verb": "PRIVMSG", "targets": ["#u"], "text": "excepted by " + mask}])
+        acts.append(["act", 3, {"verb": "PRIVMSG", "targets": ["#u"], "text": "outside and banned"}])
+        acts.append(["act", 1, {"verb": "MODE", "target": "#u", "modes": [["-e", [mask]]]}])
+    acts.append(["act", 2, {"verb": "PART", "chans": ["#u"]}])
+    acts.append(["act", 1, {"verb": "MODE", "target": "#u", "modes": [["+e", ["zo?!*@*"]]]}])
+    acts.append(["act", 2, {"verb": "JOIN", "chans": ["#u"]}])
+    acts.append(["act", 3, {"verb": "JOIN", "chans": ["#u"]}])
+    acts.append(["act", 1, {"verb": "WHO", "mask": "zo?"}])
+    acts.append(["act", 1, {"verb": "WHO", "mask": "zo??"}])
+    acts.append(["act", 1, {"verb": "WHOIS", "masks": ["z??"]}])
+    return {"engine": "e1", "variant": {"preconf": False}, "actions": acts}
+
+
+def self_kick_scenario():
+    """the last member of a channel kicks itself (an operator left alone; a founder that gave up its founder status):
+    the channel is gone - LUSERS, LIST and a later JOIN say so"""
+    acts = [["connect", {"nick": "al", "user": "al"}], ["connect", {"nick": "bo", "user": "bob"}],
+            ["connect", {"nick": "cy", "user": "cy"}]]
+    acts.append(["act", 1, {"verb": "JOIN", "chans": ["#sk"]}])
+    acts.append(["act", 2, {"verb": "JOIN", "chans": ["#sk"]}])
+    acts.append(["act", 1, {"verb": "MODE", "target": "#sk", "modes": [["+o", ["bo"]]]}])
+    acts.append(["act", 1, {"verb": "TOPIC", "chan": "#sk", "text": "dies with the last member"}])
+    acts.append(["act", 1, {"verb": "PART", "chans": ["#sk"]}])
+    acts.append(["act", 3, {"verb": "LUSERS"}])
+    acts.append(["act", 2, {"verb": "KICK", "chan": "#sk", "users": ["bo"], "comment": "myself"}])
+    acts.append(["act", 3, {"verb": "LUSERS"}])
+    acts.append(["act", 3, {"verb": "LIST", "chans": []}])
+    acts.append(["act", 3, {"verb": "JOIN", "chans": ["#sk"]}])
+    acts.append(["act", 3, {"verb": "NAMES", "chans": ["#sk"]}])
+    acts.append(["act", 1, {"verb": "JOIN", "chans": ["#solo"]}])
+    acts.append(["act", 1, {"verb": "MODE", "target": "#solo", "modes": [["-q", ["al"]]]}])
+    acts.append(["act", 1, {"verb": "KICK", "chan": "#solo", "users": ["al"], "comment": None}])
+    acts.append(["act", 3, {"verb": "LUSERS"}])
+    acts.append(["act", 3, {"verb": "LIST", "chans": []}])
+    acts.append(["act", 3, {"verb": "KICK", "chan": "#sk", "users": ["cy"], "comment": "and the founder?"}])
+    acts.append(["act", 2, {"verb": "LUSERS"}])
+    return {"engine": "e1", "variant": {"preconf": False}, "actions": acts}
+
+
 def run_big(ctx, res, props):
     """run the chunk-boundary scenario; violations tagged with one of `props` are findings"""
     binary, hooks = ctx.binary()
@@ -474,7 +529,8 @@ def run_generic(ctx, res, skip=()):
     binary, hooks = ctx.binary()
     for name, scen in (("big", big_scenario), ("ranks", rank_matrix_scenario), ("twins", case_twin_scenario),
                        ("prefixtwins", prefix_twin_scenario), ("whowas", whowas_scenario),
-                       ("longnames", long_names_scenario)):
+                       ("longnames", long_names_scenario), ("utf8masks", utf8_mask_scenario),
+                       ("selfkick", self_kick_scenario)):
         if name in skip or (ctx.prop, name) in _GENERIC_DONE:
             continue
         _GENERIC_DONE.add((ctx.prop, name))
